@@ -81,7 +81,8 @@ Print Assumptions C11_stop_after_return.
 (* 4. the serve-side half of "nothing bound after stop": after Stop, for EVERY later event list, no
       handler is dispatched and none returns - no session operation runs concurrently with or after
       Stop, so what Stop released stays released.  (That session.Stop clunks every bound fid is the
-      session model's theorem; the harness checks the composition on the real SFileSys session.) *)
+      session model's theorem; the two are composed in section 5 below, C11_released_after_stop; the
+      harness checks the same on the real SFileSys session.) *)
 Theorem C11_quiet_after_stop : forall evs s tr, run R init evs = Some (s, tr) -> stops s = 1 ->
   forall later s' tr', run R s later = Some (s', tr') ->
   forall x, In x tr' -> (forall rid m, x <> ODispatch rid m) /\ (forall rid r, x <> OFin rid r) /\ x <> OStop.
@@ -117,3 +118,100 @@ Example C11_legacy_stop_early : exists s tr, run legacy init run_stop_early = So
   exists a b, tr = a ++ OStop :: b /\ In (OFin 0 resA) b.
 Proof. exact legacy_stop_early. Qed.
 Print Assumptions C11_legacy_stop_early.
+
+(* ------------------------------------------------------------------------------------------------
+   5. The last clause, composed: "after stop, and once in-flight handlers have returned, no fid remains
+      bound: every file-system entry the session held has been released exactly once".
+
+   Model/ServeSession.v is ONE transition system in which the Handler behind the loop above IS the session
+   of Model/Session.v (sfilesys.go): ODispatch starts a session operation, [CFinish rid ts] (the handler's
+   return) applies that operation's [sstep] to the shared session state under the file-system answers [ts],
+   and the loop's OStop output performs session.Stop.  [crun] runs a list of composed events; [cd] is the
+   request -> operation / result -> reply mapping of sessionHandler.Handle, universally quantified.
+   Operations are applied atomically at the handler's return; that concurrent operations are atomic per
+   fid is C14's statement.
+
+     c_sv c / c_ss c      the serve state / the session state of the composed state c
+     c_log c              (ghost) the session operations applied so far, oldest first, with their FS answers
+     VStop / SStop        Serve.v's output "handler.Stop called" / Session.v's operation Stop
+     after ops            Session.v: the session after running ops from the empty session (C13.v)
+     B s f e, rel s, bound_ever s, bad_use s   as in C13.v
+
+   For EVERY codec, EVERY composed event list (any requests, flushes, duplicate tags, any completion order,
+   a read error / write error / context cancellation at any moment, any file-system behaviour) in whose
+   trace Stop occurs: *)
+From P9 Require Import Model.Session Model.FidSpec Model.ServeSession
+  Proofs.SessionProofs Proofs.SessionGhost Proofs.SessionClauses Proofs.ServeSessionProofs Proofs.ServeSessionWitness.
+
+Theorem C11_released_after_stop : forall cd evs c tr, crun R cd cinit evs = Some (c, tr) -> In VStop tr ->
+  (* the session saw a sequential stop-free history followed by exactly one Stop, its last operation:
+     C13_stop and C08_stop_empties apply to it as they stand *)
+  (exists ops, no_stop ops /\ c_log c = ops ++ [(SStop, [])] /\ c_ss c = after (ops ++ [(SStop, [])]) /\
+               bound_ever (c_ss c) = bound_ever (after ops)) /\
+  (* (a) no fid remains bound: the fid table is empty *)
+  refs (c_ss c) = ∅ /\ (forall f e, ~ B (c_ss c) f e) /\
+  (* (b) every entry ever bound to a fid has been released - exactly once - and not used afterwards *)
+  NoDup (rel (c_ss c)) /\ (forall e, e ∈ bound_ever (c_ss c) -> e ∈ rel (c_ss c)) /\ bad_use (c_ss c) = [] /\
+  (* (d) Stop ran exactly once, after the loop returned, when no handler goroutine was left *)
+  stop_count tr = 1%nat /\ In OReturn tr /\ (forall rid h, hs (c_sv c) !! rid = Some h -> h_st h = HGone).
+Proof. exact released_after_stop. Qed.
+Print Assumptions C11_released_after_stop.
+
+(* (c) and from then on, for EVERY later event list, the session is not touched: no operation is applied
+       (so nothing is bound later), no handler returns, no second Stop *)
+Theorem C11_session_frozen_after_stop : forall cd evs c tr, crun R cd cinit evs = Some (c, tr) -> In VStop tr ->
+  forall later c' tr', crun R cd c later = Some (c', tr') ->
+    c_ss c' = c_ss c /\ c_log c' = c_log c /\ ~ In VStop tr' /\ (forall rid r, ~ In (OFin rid r) tr').
+Proof. exact frozen_after_stop. Qed.
+Print Assumptions C11_session_frozen_after_stop.
+
+(* before Stop the session of the composed system is a session reachable in Session.v by a sequential
+   stop-free operation list (its log): every C08/C13 theorem over [reach] / [after] holds of it *)
+Theorem C11_session_sequential : forall cd evs c tr, crun R cd cinit evs = Some (c, tr) -> ~ In VStop tr ->
+  SessionClauses.reach (c_ss c) /\ no_stop (c_log c) /\ c_ss c = after (c_log c).
+Proof. exact session_reach. Qed.
+Print Assumptions C11_session_sequential.
+
+(* the serve component of a composed run is a run of Serve.v with the same outputs: theorems 1-4 above
+   (and C06, C07) hold of the composed system *)
+Theorem C11_composed_refines_serve : forall v cd evs c c' tr, crun v cd c evs = Some (c', tr) ->
+  exists sevs, run v (c_sv c) sevs = Some (c_sv c', tr) /\ length sevs = length evs.
+Proof. exact crun_serve. Qed.
+Print Assumptions C11_composed_refines_serve.
+
+(* the property's premise "once in-flight handlers have returned" is not defeated by the session: while a
+   handler is running its Handle can return, whatever the file system answers (no Session call hangs) *)
+Theorem C11_handler_can_return : forall cd evs c tr, crun R cd cinit evs = Some (c, tr) ->
+  forall rid h, hs (c_sv c) !! rid = Some h -> h_st h = HRun ->
+  forall ts, exists c' o, cstep R cd c (CFinish rid ts) = Some (c', o).
+Proof. exact handler_can_return. Qed.
+Print Assumptions C11_handler_can_return.
+
+(* non-vacuity: fids 0 and 1 bound, a Twalk 0 -> 2 in flight when the read side fails; Stop is not enabled
+   while it is; it returns after the loop has, binding fid 2; then Stop releases all three entries once *)
+Example C11_example_composed_fault : exists c tr, crun R demo_codec cinit (cs_prefix walk_a) = Some (c, tr) /\
+  fault (c_sv c) = true /\ bound_fids c = [(0, 0); (1, 1)] /\ released (c_ss c) = [] /\
+  (exists h, hs (c_sv c) !! 2 = Some h /\ h_st h = HRun) /\
+  cstep R demo_codec c (CEv EStop) = None /\
+  crun R demo_codec cinit (cs_prefix walk_a ++ [CEv EReturn; CEv EStop]) = None.
+Proof. exact ex_composed_fault. Qed.
+Print Assumptions C11_example_composed_fault.
+
+Example C11_example_composed_shutdown : exists c tr, crun R demo_codec cinit (cs_prefix walk_a ++ cs_shutdown) = Some (c, tr) /\
+  In VStop tr /\ In (OFin 2 (RMsg [111; 1])) tr /\
+  bound_fids c = [] /\ table (c_ss c) = [] /\
+  released (c_ss c) = [(0, RcStop); (1, RcStop); (2, RcStop)] /\ bound_ever (c_ss c) = [2; 1; 0] /\
+  release_count c 0 = 1%nat /\ release_count c 1 = 1%nat /\ release_count c 2 = 1%nat /\
+  c_log c = [(OAttach 0 NOFID, [Tok 0 true 0]); (OWalk 0 1 [], [Tok 0 true 0]);
+             (OWalk 0 2 [[97]], [Tok 0 false 1]); (SStop, [])].
+Proof. exact ex_composed_shutdown. Qed.
+Print Assumptions C11_example_composed_shutdown.
+
+(* D13 in the composed system: on the legacy loop Stop runs while a Tattach is in flight; it returns
+   afterwards, binds fid 2, and entry 2 is never released *)
+Example C11_legacy_bound_after_stop : exists c tr,
+  crun legacy demo_codec cinit (cs_prefix attach2 ++ [CEv EReturn; CEv EStop; CFinish 2 [Tok 0 true 0]; CEv (EGiveUp 2)]) = Some (c, tr) /\
+  In VStop tr /\ bound_fids c = [(2, 2)] /\ release_count c 2 = 0%nat /\ bound_ever (c_ss c) = [2; 1; 0] /\
+  exists a b, c_log c = a ++ (SStop, []) :: (OAttach 2 NOFID, [Tok 0 true 0]) :: b.
+Proof. exact legacy_bound_after_stop. Qed.
+Print Assumptions C11_legacy_bound_after_stop.
